@@ -559,26 +559,33 @@ package pub
 //@ loop 6 [C09] invariant unlocked: held == emp
 //@ loop 6 [C08] invariant unlocked: held == emp
 //@ [C03] ensures stripped_on_success: err == nil ==> stripped(activity)
-//@ loop 1 [C03] invariant length: to == props[activity]["ActivityStreamsTo"] && len(r) == 0 + (iter == nil ? to.Len() : ipos(iter))
-//@ loop 1 [C03] invariant segment0: (forall j Int :: {props[activity]["ActivityStreamsTo"].At(j)} 0 <= j && j < (iter == nil ? to.Len() : ipos(iter)) ==> r[0 + j] == elemId(props[activity]["ActivityStreamsTo"].At(j)))
-//@ loop 1 [C03] invariant position: iter != nil ==> iter == to.At(ipos(iter)) && iparent(iter) == to && ilen(iter) == to.Len()
-//@ loop 2 [C03] invariant length: bto == props[activity]["ActivityStreamsBto"] && len(r) == plen(props[activity]["ActivityStreamsTo"]) + (iter == nil ? bto.Len() : ipos(iter))
-//@ loop 2 [C03] invariant segment0: (forall j Int :: {props[activity]["ActivityStreamsBto"].At(j)} 0 <= j && j < (iter == nil ? bto.Len() : ipos(iter)) ==> r[plen(props[activity]["ActivityStreamsTo"]) + j] == elemId(props[activity]["ActivityStreamsBto"].At(j)))
-//@ loop 2 [C03] invariant position: iter != nil ==> iter == bto.At(ipos(iter)) && iparent(iter) == bto && ilen(iter) == bto.Len()
-//@ loop 3 [C03] invariant length: cc == props[activity]["ActivityStreamsCc"] && len(r) == plen(props[activity]["ActivityStreamsTo"]) + plen(props[activity]["ActivityStreamsBto"]) + (iter == nil ? cc.Len() : ipos(iter))
-//@ loop 3 [C03] invariant segment0: (forall j Int :: {props[activity]["ActivityStreamsCc"].At(j)} 0 <= j && j < (iter == nil ? cc.Len() : ipos(iter)) ==> r[plen(props[activity]["ActivityStreamsTo"]) + plen(props[activity]["ActivityStreamsBto"]) + j] == elemId(props[activity]["ActivityStreamsCc"].At(j)))
-//@ loop 3 [C03] invariant segment1: (forall j Int :: {props[activity]["ActivityStreamsBto"].At(j)} 0 <= j && j < plen(props[activity]["ActivityStreamsBto"]) ==> r[plen(props[activity]["ActivityStreamsTo"]) + j] == elemId(props[activity]["ActivityStreamsBto"].At(j)))
-//@ loop 3 [C03] invariant position: iter != nil ==> iter == cc.At(ipos(iter)) && iparent(iter) == cc && ilen(iter) == cc.Len()
-//@ loop 4 [C03] invariant length: bcc == props[activity]["ActivityStreamsBcc"] && len(r) == plen(props[activity]["ActivityStreamsTo"]) + plen(props[activity]["ActivityStreamsBto"]) + plen(props[activity]["ActivityStreamsCc"]) + (iter == nil ? bcc.Len() : ipos(iter))
-//@ loop 4 [C03] invariant segment0: (forall j Int :: {props[activity]["ActivityStreamsBcc"].At(j)} 0 <= j && j < (iter == nil ? bcc.Len() : ipos(iter)) ==> r[plen(props[activity]["ActivityStreamsTo"]) + plen(props[activity]["ActivityStreamsBto"]) + plen(props[activity]["ActivityStreamsCc"]) + j] == elemId(props[activity]["ActivityStreamsBcc"].At(j)))
-//@ loop 4 [C03] invariant segment1: (forall j Int :: {props[activity]["ActivityStreamsBto"].At(j)} 0 <= j && j < plen(props[activity]["ActivityStreamsBto"]) ==> r[plen(props[activity]["ActivityStreamsTo"]) + j] == elemId(props[activity]["ActivityStreamsBto"].At(j)))
-//@ loop 4 [C03] invariant position: iter != nil ==> iter == bcc.At(ipos(iter)) && iparent(iter) == bcc && ilen(iter) == bcc.Len()
-//@ loop 5 [C03] invariant length: audience == props[activity]["ActivityStreamsAudience"] && len(r) == plen(props[activity]["ActivityStreamsTo"]) + plen(props[activity]["ActivityStreamsBto"]) + plen(props[activity]["ActivityStreamsCc"]) + plen(props[activity]["ActivityStreamsBcc"]) + (iter == nil ? audience.Len() : ipos(iter))
-//@ loop 5 [C03] invariant segment0: (forall j Int :: {props[activity]["ActivityStreamsAudience"].At(j)} 0 <= j && j < (iter == nil ? audience.Len() : ipos(iter)) ==> r[plen(props[activity]["ActivityStreamsTo"]) + plen(props[activity]["ActivityStreamsBto"]) + plen(props[activity]["ActivityStreamsCc"]) + plen(props[activity]["ActivityStreamsBcc"]) + j] == elemId(props[activity]["ActivityStreamsAudience"].At(j)))
-//@ loop 5 [C03] invariant segment1: (forall j Int :: {props[activity]["ActivityStreamsBto"].At(j)} 0 <= j && j < plen(props[activity]["ActivityStreamsBto"]) ==> r[plen(props[activity]["ActivityStreamsTo"]) + j] == elemId(props[activity]["ActivityStreamsBto"].At(j)))
-//@ loop 5 [C03] invariant segment2: (forall j Int :: {props[activity]["ActivityStreamsBcc"].At(j)} 0 <= j && j < plen(props[activity]["ActivityStreamsBcc"]) ==> r[plen(props[activity]["ActivityStreamsTo"]) + plen(props[activity]["ActivityStreamsBto"]) + plen(props[activity]["ActivityStreamsCc"]) + j] == elemId(props[activity]["ActivityStreamsBcc"].At(j)))
-//@ loop 5 [C03] invariant position: iter != nil ==> iter == audience.At(ipos(iter)) && iparent(iter) == audience && ilen(iter) == audience.Len()
+//@ loop 1 [C03,C02] invariant length: to == props[activity]["ActivityStreamsTo"] && len(r) == 0 + (iter == nil ? to.Len() : ipos(iter))
+//@ loop 1 [C03,C02] invariant segment0: (forall j Int :: {props[activity]["ActivityStreamsTo"].At(j)} 0 <= j && j < (iter == nil ? to.Len() : ipos(iter)) ==> r[0 + j] == elemId(props[activity]["ActivityStreamsTo"].At(j)))
+//@ loop 1 [C03,C02] invariant position: iter != nil ==> iter == to.At(ipos(iter)) && iparent(iter) == to && ilen(iter) == to.Len()
+//@ loop 2 [C03,C02] invariant length: bto == props[activity]["ActivityStreamsBto"] && len(r) == plen(props[activity]["ActivityStreamsTo"]) + (iter == nil ? bto.Len() : ipos(iter))
+//@ loop 2 [C03,C02] invariant segment0: (forall j Int :: {props[activity]["ActivityStreamsBto"].At(j)} 0 <= j && j < (iter == nil ? bto.Len() : ipos(iter)) ==> r[plen(props[activity]["ActivityStreamsTo"]) + j] == elemId(props[activity]["ActivityStreamsBto"].At(j)))
+//@ loop 2 [C03,C02] invariant position: iter != nil ==> iter == bto.At(ipos(iter)) && iparent(iter) == bto && ilen(iter) == bto.Len()
+//@ loop 3 [C03,C02] invariant length: cc == props[activity]["ActivityStreamsCc"] && len(r) == plen(props[activity]["ActivityStreamsTo"]) + plen(props[activity]["ActivityStreamsBto"]) + (iter == nil ? cc.Len() : ipos(iter))
+//@ loop 3 [C03,C02] invariant segment0: (forall j Int :: {props[activity]["ActivityStreamsCc"].At(j)} 0 <= j && j < (iter == nil ? cc.Len() : ipos(iter)) ==> r[plen(props[activity]["ActivityStreamsTo"]) + plen(props[activity]["ActivityStreamsBto"]) + j] == elemId(props[activity]["ActivityStreamsCc"].At(j)))
+//@ loop 3 [C03,C02] invariant segment1: (forall j Int :: {props[activity]["ActivityStreamsBto"].At(j)} 0 <= j && j < plen(props[activity]["ActivityStreamsBto"]) ==> r[plen(props[activity]["ActivityStreamsTo"]) + j] == elemId(props[activity]["ActivityStreamsBto"].At(j)))
+//@ loop 3 [C03,C02] invariant position: iter != nil ==> iter == cc.At(ipos(iter)) && iparent(iter) == cc && ilen(iter) == cc.Len()
+//@ loop 4 [C03,C02] invariant length: bcc == props[activity]["ActivityStreamsBcc"] && len(r) == plen(props[activity]["ActivityStreamsTo"]) + plen(props[activity]["ActivityStreamsBto"]) + plen(props[activity]["ActivityStreamsCc"]) + (iter == nil ? bcc.Len() : ipos(iter))
+//@ loop 4 [C03,C02] invariant segment0: (forall j Int :: {props[activity]["ActivityStreamsBcc"].At(j)} 0 <= j && j < (iter == nil ? bcc.Len() : ipos(iter)) ==> r[plen(props[activity]["ActivityStreamsTo"]) + plen(props[activity]["ActivityStreamsBto"]) + plen(props[activity]["ActivityStreamsCc"]) + j] == elemId(props[activity]["ActivityStreamsBcc"].At(j)))
+//@ loop 4 [C03,C02] invariant segment1: (forall j Int :: {props[activity]["ActivityStreamsBto"].At(j)} 0 <= j && j < plen(props[activity]["ActivityStreamsBto"]) ==> r[plen(props[activity]["ActivityStreamsTo"]) + j] == elemId(props[activity]["ActivityStreamsBto"].At(j)))
+//@ loop 4 [C03,C02] invariant position: iter != nil ==> iter == bcc.At(ipos(iter)) && iparent(iter) == bcc && ilen(iter) == bcc.Len()
+//@ loop 5 [C03,C02] invariant length: audience == props[activity]["ActivityStreamsAudience"] && len(r) == plen(props[activity]["ActivityStreamsTo"]) + plen(props[activity]["ActivityStreamsBto"]) + plen(props[activity]["ActivityStreamsCc"]) + plen(props[activity]["ActivityStreamsBcc"]) + (iter == nil ? audience.Len() : ipos(iter))
+//@ loop 5 [C03,C02] invariant segment0: (forall j Int :: {props[activity]["ActivityStreamsAudience"].At(j)} 0 <= j && j < (iter == nil ? audience.Len() : ipos(iter)) ==> r[plen(props[activity]["ActivityStreamsTo"]) + plen(props[activity]["ActivityStreamsBto"]) + plen(props[activity]["ActivityStreamsCc"]) + plen(props[activity]["ActivityStreamsBcc"]) + j] == elemId(props[activity]["ActivityStreamsAudience"].At(j)))
+//@ loop 5 [C03,C02] invariant segment1: (forall j Int :: {props[activity]["ActivityStreamsBto"].At(j)} 0 <= j && j < plen(props[activity]["ActivityStreamsBto"]) ==> r[plen(props[activity]["ActivityStreamsTo"]) + j] == elemId(props[activity]["ActivityStreamsBto"].At(j)))
+//@ loop 5 [C03,C02] invariant segment2: (forall j Int :: {props[activity]["ActivityStreamsBcc"].At(j)} 0 <= j && j < plen(props[activity]["ActivityStreamsBcc"]) ==> r[plen(props[activity]["ActivityStreamsTo"]) + plen(props[activity]["ActivityStreamsBto"]) + plen(props[activity]["ActivityStreamsCc"]) + j] == elemId(props[activity]["ActivityStreamsBcc"].At(j)))
+//@ loop 5 [C03,C02] invariant position: iter != nil ==> iter == audience.At(ipos(iter)) && iparent(iter) == audience && ilen(iter) == audience.Len()
 //@ [C03] at call pub.filterURLs#1: assert hidden_recipients_collected_before_stripping: (forall j Int :: {props[activity]["ActivityStreamsBto"].At(j)} 0 <= j && j < plen(props[activity]["ActivityStreamsBto"]) ==> $arg0[plen(props[activity]["ActivityStreamsTo"]) + j] == elemId(props[activity]["ActivityStreamsBto"].At(j))) && (forall j Int :: {props[activity]["ActivityStreamsBcc"].At(j)} 0 <= j && j < plen(props[activity]["ActivityStreamsBcc"]) ==> $arg0[plen(props[activity]["ActivityStreamsTo"]) + plen(props[activity]["ActivityStreamsBto"]) + plen(props[activity]["ActivityStreamsCc"]) + j] == elemId(props[activity]["ActivityStreamsBcc"].At(j))) && props == old(props)
+//@ loop 2 [C02] invariant segment_to: (forall j Int :: {props[activity]["ActivityStreamsTo"].At(j)} 0 <= j && j < plen(props[activity]["ActivityStreamsTo"]) ==> r[j] == elemId(props[activity]["ActivityStreamsTo"].At(j)))
+//@ loop 3 [C02] invariant segment_to: (forall j Int :: {props[activity]["ActivityStreamsTo"].At(j)} 0 <= j && j < plen(props[activity]["ActivityStreamsTo"]) ==> r[j] == elemId(props[activity]["ActivityStreamsTo"].At(j)))
+//@ loop 4 [C02] invariant segment_to: (forall j Int :: {props[activity]["ActivityStreamsTo"].At(j)} 0 <= j && j < plen(props[activity]["ActivityStreamsTo"]) ==> r[j] == elemId(props[activity]["ActivityStreamsTo"].At(j)))
+//@ loop 5 [C02] invariant segment_to: (forall j Int :: {props[activity]["ActivityStreamsTo"].At(j)} 0 <= j && j < plen(props[activity]["ActivityStreamsTo"]) ==> r[j] == elemId(props[activity]["ActivityStreamsTo"].At(j)))
+//@ loop 4 [C02] invariant segment_cc: (forall j Int :: {props[activity]["ActivityStreamsCc"].At(j)} 0 <= j && j < plen(props[activity]["ActivityStreamsCc"]) ==> r[plen(props[activity]["ActivityStreamsTo"]) + plen(props[activity]["ActivityStreamsBto"]) + j] == elemId(props[activity]["ActivityStreamsCc"].At(j)))
+//@ loop 5 [C02] invariant segment_cc: (forall j Int :: {props[activity]["ActivityStreamsCc"].At(j)} 0 <= j && j < plen(props[activity]["ActivityStreamsCc"]) ==> r[plen(props[activity]["ActivityStreamsTo"]) + plen(props[activity]["ActivityStreamsBto"]) + j] == elemId(props[activity]["ActivityStreamsCc"].At(j)))
+//@ [C02] at call pub.filterURLs#1: assert every_addressed_id_is_collected: len($arg0) == plen(props[activity]["ActivityStreamsTo"]) + plen(props[activity]["ActivityStreamsBto"]) + plen(props[activity]["ActivityStreamsCc"]) + plen(props[activity]["ActivityStreamsBcc"]) + plen(props[activity]["ActivityStreamsAudience"]) && (forall j Int :: {props[activity]["ActivityStreamsTo"].At(j)} 0 <= j && j < plen(props[activity]["ActivityStreamsTo"]) ==> $arg0[j] == elemId(props[activity]["ActivityStreamsTo"].At(j))) && (forall j Int :: {props[activity]["ActivityStreamsCc"].At(j)} 0 <= j && j < plen(props[activity]["ActivityStreamsCc"]) ==> $arg0[plen(props[activity]["ActivityStreamsTo"]) + plen(props[activity]["ActivityStreamsBto"]) + j] == elemId(props[activity]["ActivityStreamsCc"].At(j))) && (forall j Int :: {props[activity]["ActivityStreamsAudience"].At(j)} 0 <= j && j < plen(props[activity]["ActivityStreamsAudience"]) ==> $arg0[plen(props[activity]["ActivityStreamsTo"]) + plen(props[activity]["ActivityStreamsBto"]) + plen(props[activity]["ActivityStreamsCc"]) + plen(props[activity]["ActivityStreamsBcc"]) + j] == elemId(props[activity]["ActivityStreamsAudience"].At(j)))
 
 //@ func (*pub.sideEffectActor).resolveActors
 //@ params a, c, t, r, depth, maxDepth
